@@ -141,12 +141,16 @@ func RepoDir() string {
 	return "/repo"
 }
 
-// WorkerMain runs one shard and speaks the protocol on stdout.
-func WorkerMain(p *Property, o WorkerOpts) int {
-	// cap address space so that a runaway allocation kills this worker only
+// capAddressSpace caps the address space so that a runaway allocation kills this process only.
+func capAddressSpace() {
 	var lim syscall.Rlimit
 	lim.Cur, lim.Max = 6<<30, 6<<30
 	_ = syscall.Setrlimit(syscall.RLIMIT_AS, &lim)
+}
+
+// WorkerMain runs one shard and speaks the protocol on stdout.
+func WorkerMain(p *Property, o WorkerOpts) int {
+	capAddressSpace()
 
 	env, cleanup, err := NewEnv(o.Tier)
 	if err != nil {
